@@ -5,6 +5,7 @@ complete table.
 -/
 import EPV.Gen.C18Tables
 import EPV.Lemmas.SeqTypeTables
+import EPV.Props.C18
 namespace EPV.C18
 open EPV.SeqType EPV.Gen.C18
 
@@ -83,6 +84,138 @@ theorem signatures_are_function_tests :
     signatures.all (fun s => match s.2 with
       | .func _ _ => isRestriction tables s.2 s.2
       | _ => false) = true := by decide +kernel
+
+/-- `isinstance(v, A)` and `issubclass(A, B)` imply `isinstance(v, B)` for every value class and both XSD
+versions of the parser (the XSD 1.1-only types have no instances under an XSD 1.0 parser) -/
+theorem inst_up : tables.InstUp := Tables.instUp_of_check tables (by decide +kernel)
+
+/-- rows mention only positions inside the tables -/
+theorem rows_bounded :
+    tables.instRows.all (fun r => r.all (· < atomNames.length)) = true ∧
+    tables.numericCls.all (· < clsNames.length) = true := by decide +kernel
+
+/-- in-range agreement of the live tables with the specification (both XSD versions) -/
+theorem spec_agree_check :
+    [true, false].all (fun x =>
+      (List.range clsNames.length).all (fun c =>
+        (List.range atomNames.length).all (fun t => instAtomic tables x c t == specAtomic (specTables x) c t)
+        && tables.isNumeric c == specNumeric (specTables x) c)) = true := by decide +kernel
+
+/-- the isinstance table of the live code agrees with derives-from on the hand-written XSD hierarchy, for
+all positions (out-of-range positions name nothing on either side) -/
+theorem spec_agree (xsd11 : Bool) : SpecAgree tables (specTables xsd11) xsd11 := by
+  have hx : xsd11 ∈ [true, false] := by cases xsd11 <;> simp
+  have hchk := spec_agree_check
+  simp only [List.all_eq_true, List.mem_range, Bool.and_eq_true, beq_iff_eq] at hchk
+  have hb := rows_bounded
+  simp only [List.all_eq_true, decide_eq_true_eq] at hb
+  constructor
+  · intro c t
+    by_cases hc : c < clsNames.length
+    · by_cases ht : t < atomNames.length
+      · exact (hchk xsd11 hx c hc).1 t ht
+      · -- no row contains a position outside the atomic table; the spec knows no such type
+        have h1 : tables.inst c t = false := by
+          simp only [Tables.inst]
+          cases hcon : (tables.instRows.getD c []).contains t
+          · rfl
+          · exfalso
+            have hm : tables.instRows.getD c [] ∈ tables.instRows := by
+              rw [List.getD_eq_getElem?_getD, List.getElem?_eq_getElem (by rw [tables_shape.2.2.1]; exact hc)]
+              exact List.getElem_mem _
+            exact ht (hb.1 _ hm t (by simpa using hcon))
+        have h2 : (specTables xsd11).atomTy t = none := by
+          simp only [specTables]
+          split
+          · rfl
+          · exact List.getElem?_eq_none (by rw [tables_shape.2.1]; omega)
+        rw [specAtomic_none_right _ _ _ h2]
+        simp only [instAtomic, h1]
+        split <;> rfl
+    · have h1 : tables.inst c t = false := by
+        simp only [Tables.inst]
+        rw [List.getD_eq_getElem?_getD, List.getElem?_eq_none (by rw [tables_shape.2.2.1]; omega)]
+        rfl
+      have h2 : (specTables xsd11).clsTy c = none := by
+        simp only [specTables]
+        exact List.getElem?_eq_none (by rw [tables_shape.2.2.2.1]; omega)
+      rw [specAtomic_none_left _ _ _ h2]
+      simp only [instAtomic, h1]
+      split <;> rfl
+  · intro c
+    by_cases hc : c < clsNames.length
+    · exact (hchk xsd11 hx c hc).2
+    · have h1 : tables.isNumeric c = false := by
+        simp only [Tables.isNumeric]
+        cases hcon : tables.numericCls.contains c
+        · rfl
+        · exact absurd (hb.2 c (by simpa using hcon)) hc
+      have h2 : (specTables xsd11).clsTy c = none := by
+        simp only [specTables]
+        exact List.getElem?_eq_none (by rw [tables_shape.2.2.2.1]; omega)
+      simp [h1, specNumeric, h2]
+
+/-! ### the property theorems instantiated with the live tables -/
+
+/-- `match_sequence_type` of the live code (as modelled) is XPath 3.1 SequenceType matching on `domT` -/
+theorem match_eq_spec_live (xsd11 : Bool) (t : Ty) (v : List Item) (hd : domT t v = true) :
+    matchSt tables xsd11 true t v = .ok (specMatch (specTables xsd11) (isRestriction tables) t v) :=
+  match_eq_spec tables (specTables xsd11) xsd11 (spec_agree xsd11) t v hd
+
+
+/-- transitivity of `is_sequence_type_restriction` as modelled, for the live `issubclass` matrix -/
+theorem restriction_trans_live (t1 t2 t3 : Ty)
+    (h1 : isRestriction tables t1 t2 = true) (h2 : isRestriction tables t2 t3 = true) :
+    isRestriction tables t1 t3 = true := restriction_trans tables atomic_sub_trans t1 t2 t3 h1 h2
+
+/-- soundness for matching, for the live tables (see `restriction_sound_partial`) -/
+theorem restriction_sound_live (xsd11 : Bool) (T S : Ty) (v : List Item)
+    (hm : matchSt tables xsd11 true S v = .ok true) (hR : isRestriction tables T S = true)
+    (hF : (T.isTypedFunc && hasMapArray v) = false) :
+    matchSt tables xsd11 true T v = .ok true :=
+  restriction_sound_partial tables atomic_sub_trans inst_up xsd11 T S v hm hR hF
+
+def ixOf (x : XsdT) : Nat := atomXsd.idxOf x
+def clsOf (x : XsdT) : Nat := clsXsd.idxOf x
+def tyAtom (x : XsdT) (o : Occ) : Ty := .leaf (.atomic (ixOf x)) o
+
+def cexS : Ty := .func (.cons (tyAtom .integer .one) .nil) (.leaf .item .star)
+def cexT : Ty := .func (.cons (tyAtom .int .one) .nil) (.leaf .item .star)
+def cexV : List Item := [.array [[.atom tables.intCls]]]
+def cexAttr : Ty := .leaf (.kind .attribute .none) .one
+def cexElem : List Item := [.node .element 1 [2] false]
+
+/-- kernel-checked counter-example to the full `restriction_sound` (finding F18i): the array `[1]` matches
+`function(xs:integer) as item()*`, that type is a restriction of `function(xs:int) as item()*`
+(xs:int ⊑ xs:integer, contravariant), but the array does not match the latter, because
+`XPathArray.match_function_test` tests the parameter type with the integer 1 -/
+theorem restriction_sound_counterexample :
+    matchSt tables false true cexS cexV = .ok true ∧ isRestriction tables cexT cexS = true ∧
+      matchSt tables false true cexT cexV = .ok false ∧ (cexT.isTypedFunc && hasMapArray cexV) = true := by
+  decide +kernel
+
+/-- kernel-checked counter-example to the full `instance_of_eq_match` (finding F18d): an element with an
+attribute is an `instance of attribute()` for the kind-test token, not for `match_sequence_type`, and
+not for XPath 3.1 -/
+theorem instance_of_counterexample :
+    instanceOf tables false cexAttr cexElem = .ok true ∧ matchSt tables false true cexAttr cexElem = .ok false ∧
+      specMatch (specTables false) (isRestriction tables) cexAttr cexElem = false ∧
+      trigF18d cexAttr cexElem = true := by decide +kernel
+
+/-- the repaired defects F18a / F18a2 stay repaired in the model: a type without indicator does not accept
+an optional or empty candidate, a typed function test with optional return type does not accept
+`empty-sequence()`; the legitimate cases still hold -/
+theorem f18a_regression :
+    isRestriction tables (.leaf .item .one) (tyAtom .integer .opt) = false ∧
+    isRestriction tables (tyAtom .int .one) (tyAtom .int .opt) = false ∧
+    isRestriction tables (.leaf .item .one) .empty = false ∧
+    isRestriction tables (.leaf .item .plus) .empty = false ∧
+    isRestriction tables (.func (.cons (tyAtom .int .one) .nil) (.leaf .anyNode .opt)) .empty = false ∧
+    isRestriction tables (.leaf .item .opt) .empty = true ∧
+    isRestriction tables (tyAtom .decimal .star) (tyAtom .integer .one) = true ∧
+    isRestriction tables (.func (.cons (tyAtom .int .one) .nil) (tyAtom .decimal .opt))
+                         (.func (.cons (tyAtom .integer .one) .nil) (tyAtom .integer .one)) = true := by
+  decide +kernel
 
 /-- non-vacuity: the tables are not empty -/
 example : atomNames.length = 47 ∧ 40 < clsNames.length ∧ 100 < signatures.length := by decide +kernel
